@@ -823,6 +823,10 @@ impl Matcher for MouseEventMatcher {
         }
 
         let button = event & 3;
+        // buttons 8..11 (bit 7) and the horizontal wheel (66, 67) have no name
+        if event & 128 != 0 || (event & 64 != 0 && button > 1) {
+            return None;
+        }
         let name = if event & 64 != 0 {
             if button == 0 {
                 KeyName::MouseWheelDown
